@@ -820,3 +820,89 @@ Proof.
   - rewrite (Hnil eq_refl). cbn. rewrite !app_nil_r. repeat split.
   - apply Hcons. discriminate.
 Qed.
+
+
+(* ------------------------------------------------------------------------------------------------ (vii) Parzen constant liar on a live estimator *)
+Lemma pz_eta s : mkPz (p_dim s) (p_lower s) (p_greater s) (p_lower_lies s) (p_greater_lies s) = s.
+Proof. destruct s; reflexivity. Qed.
+
+Lemma fold_pz_append1 l : forall s, dims_ok (p_dim s) l ->
+  fold_left pz_append1 l s = mkPz (p_dim s) (p_lower s) (p_greater s ++ l) (p_lower_lies s) (p_greater_lies s ++ l).
+Proof.
+  induction l as [|p l IH]; intros s Hd; cbn [fold_left].
+  - rewrite !app_nil_r. symmetry. apply pz_eta.
+  - inversion Hd as [|? ? Hp Hl]; subst.
+    assert (H1 : dims_ok (p_dim s) [p]) by (constructor; [exact Hp|constructor]).
+    unfold pz_append1 at 2. rewrite (pz_append_spec s [p] false H1). cbn [fst].
+    rewrite IH by exact Hl. cbn [p_dim p_lower p_greater p_lower_lies p_greater_lies]. rewrite <- !app_assoc. reflexivity.
+Qed.
+
+Lemma dims_ok_firstn d i l : dims_ok d l -> dims_ok d (firstn i l).
+Proof. unfold dims_ok. intro H. apply Forall_forall. intros x Hx. rewrite Forall_forall in H. apply H. eapply In_firstn. exact Hx. Qed.
+
+(* Every optimisation of the batch runs against the estimator as the caller handed it over (base points and the lies it
+   already held - the pending points - untouched) plus lies at the previous picks of this batch; afterwards the caller has
+   its estimator back exactly as it was: the batch's lies are gone, the lies held before are still there. *)
+Theorem parzen_constant_liar blo bgr (pick : pz -> point) n s :
+  pz_inv blo bgr s -> (forall t, length (pick t) = p_dim s) ->
+  let '(picks, seen, final) := pz_constant_liar pick n s in
+  length picks = n /\
+  (forall i, (i < n)%nat -> exists si, nth_error seen i = Some si /\ nth_error picks i = Some (pick si) /\
+     p_dim si = p_dim s /\ p_lower si = p_lower s /\ p_lower_lies si = p_lower_lies s /\
+     p_greater si = p_greater s ++ firstn i picks /\ p_greater_lies si = p_greater_lies s ++ firstn i picks) /\
+  final = s.
+Proof.
+  intros Hi Hp. unfold pz_constant_liar.
+  destruct (cl_loop_spec pz_append1 pick n s) as (L1 & L2 & Hn).
+  destruct (cl_loop pz_append1 pick n s) as [ps ss] eqn:E. cbn [fst snd] in *.
+  assert (Hps : dims_ok (p_dim s) ps).
+  { apply Forall_forall. intros x Hx. destruct (In_nth_error _ _ Hx) as [i Hi']. 
+    assert (Hlt : (i < n)%nat) by (rewrite <- L1; apply nth_error_Some; congruence).
+    destruct (Hn i Hlt) as [_ Hpk]. rewrite Hpk in Hi'. injection Hi' as <-. apply Hp. }
+  split; [exact L1|]. split.
+  - intros i Hlt. destruct (Hn i Hlt) as [Hs Hpk]. cbv zeta in Hs, Hpk.
+    rewrite (fold_pz_append1 (firstn i ps) s (dims_ok_firstn _ i _ Hps)) in Hs, Hpk.
+    eexists. split; [exact Hs|]. split; [exact Hpk|]. cbn. repeat split.
+  - rewrite (fold_pz_append1 ps s Hps).
+    set (s' := mkPz _ _ _ _ _).
+    assert (Hi' : pz_inv blo bgr s').
+    { destruct Hi as (H1 & H2 & H3 & H4). unfold pz_inv, s'. cbn [p_lower p_greater p_lower_lies p_greater_lies p_dim].
+      repeat split; try assumption; [rewrite H2, app_assoc; reflexivity|apply Forall_app; split; assumption]. }
+    destruct (parzen_lies_semantics blo bgr s' Hi') as (_ & _ & _ & Hr).
+    destruct Hi as (H1 & H2 & H3 & H4).
+    assert (D : p_dim s' = p_dim s) by reflexivity.
+    specialize (Hr (p_lower_lies s) (p_greater_lies s)). rewrite D in Hr. specialize (Hr H3 H4).
+    cbv zeta in Hr. cbn [pz_step] in Hr.
+    assert (Dd : p_dim (fst (pz_recover s' (p_lower_lies s) (p_greater_lies s))) = p_dim s).
+    { assert (Ho : pop_ok (p_dim s') (PRecover (p_lower_lies s) (p_greater_lies s))) by (split; [exact H3|exact H4]).
+      destruct (pz_step_inv blo bgr s' _ Hi' Ho) as [_ Hd']. cbn [pz_step] in Hd'.
+      destruct (pz_recover s' (p_lower_lies s) (p_greater_lies s)). cbn [fst] in *. congruence. }
+    destruct (pz_recover s' (p_lower_lies s) (p_greater_lies s)) as [sf ef]. cbn [fst] in *.
+    destruct Hr as (R1 & R2 & R3 & R4). rewrite <- (pz_eta sf), <- (pz_eta s). rewrite Dd, R1, R2, R3, R4, <- H1, <- H2. reflexivity.
+Qed.
+
+(* The Parzen endpoint: the optimiser that finds max_location runs against the formed estimator plus the request's pending
+   points as lies of the greater set, and so does every expected-improvement evaluation after it (max_value, the rejection
+   sampler): the pending points are still among the lies when the constant liar has returned. *)
+Theorem spe_sampling_keeps_pending blo bgr (pick : pz -> point) s pending :
+  pz_inv blo bgr s -> dims_ok (p_dim s) pending -> (forall t, length (pick t) = p_dim s) ->
+  exists seen, spe_sampling pick s pending = inl (pick seen, seen, seen) /\ seen = fst (feed_parzen s pending) /\
+    p_greater seen = p_greater s ++ pending /\ p_greater_lies seen = p_greater_lies s ++ pending /\
+    p_lower seen = p_lower s /\ p_lower_lies seen = p_lower_lies s.
+Proof.
+  intros Hi Hd Hp. unfold spe_sampling, feed_parzen.
+  destruct (pz_append_inv blo bgr s pending false Hi Hd) as (I1 & D1 & E1).
+  pose proof (pz_append_spec s pending false Hd) as Sp.
+  destruct (pz_append s pending false) as [s1 e1] eqn:E. cbn [fst snd] in *. subst e1.
+  assert (Hp1 : forall t, length (pick t) = p_dim s1) by (intro t; rewrite D1; apply Hp).
+  pose proof (parzen_constant_liar blo bgr pick 1 s1 I1 Hp1) as T.
+  destruct (pz_constant_liar pick 1 s1) as [[ps ss] s2]. destruct T as (L & Hn & ->).
+  destruct (Hn 0%nat (le_n 1)) as (s0 & Hs0 & Hp0 & _ & A1 & A2 & A3 & A4).
+  destruct ss as [|x ss]; [discriminate|]. destruct ps as [|y ps]; [discriminate|]. cbn in Hs0, Hp0.
+  injection Hs0 as ->. injection Hp0 as ->. cbn [hd].
+  assert (Es : s0 = s1).
+  { rewrite <- (pz_eta s0), <- (pz_eta s1). cbn [firstn] in A3, A4. rewrite app_nil_r in A3, A4.
+    destruct (Hn 0%nat (le_n 1)) as (s0' & Hs0' & _ & Dd & _). cbn in Hs0'. injection Hs0' as <-. rewrite Dd, A1, A2, A3, A4. reflexivity. }
+  subst s0. exists s1. split; [reflexivity|]. split; [reflexivity|].
+  injection Sp as Sp. rewrite Sp. cbn. repeat split.
+Qed.
